@@ -59,14 +59,16 @@ def rule_statics(ctx, rep):
         bad = []
         if s['mut']:
             bad.append('static mut')
-        if not s['freeze']:
+        write_once = s['ty'].startswith(('std::sync::LazyLock<', 'std::sync::lazy_lock::LazyLock<')) and not s['mut']
+        if not s['freeze'] and not write_once:
             bad.append('type %s has interior mutability' % s['ty'])
         if s['thread_local']:
             bad.append('thread-local')
         if bad:
             rep.violation(R, ent, 'global mutable state: ' + ', '.join(bad), f.loc(s['sp']))
         else:
-            rep.ok(R, ent, 'immutable %s' % s['ty'], f.loc(s['sp']))
+            rep.ok(R, ent, ('write-once constant %s (the initialiser of a static captures nothing; its body is part of the effect inventory)' if write_once
+                            else 'immutable %s') % s['ty'], f.loc(s['sp']))
     if not f.items['statics']:
         rep.ok(R, 'none', 'crate has no statics', nontrivial=False)
     # thread_local! expands to a const/static + LocalKey; catch by type mention
